@@ -123,6 +123,8 @@ static void vr_havoc_int(int k) { g_vr_int[k].value = nondet_ull() & 0x7ffffffff
 static void vr_havoc_int(int k) { g_vr_int[k].value = nondet_ull(); g_vr_int[k].ref = 1; }
 #endif
 
+/* No memset: fields the rules never read stay arbitrary (dfcc) / zero (plain mode); every field a rule may read is set
+ * explicitly below.  (memset temporaries and byte-wise initialisation make the dereference case splits expensive.) */
 static void vr_world_init(void) {
 	vr_havoc_hash(VR_H_DOC); vr_havoc_hash(VR_H_IN0); vr_havoc_hash(VR_H_RFC); vr_havoc_hash(VR_H_CALIN); vr_havoc_hash(VR_H_CAR);
 	vr_havoc_hash(VR_H_PUB); vr_havoc_hash(VR_H_AGGOUT); vr_havoc_hash(VR_H_NEW1); vr_havoc_hash(VR_H_NEW2); vr_havoc_hash(VR_H_LINK);
@@ -130,49 +132,41 @@ static void vr_world_init(void) {
 	vr_havoc_int(VR_I_AGGRT0); vr_havoc_int(VR_I_LC0); vr_havoc_int(VR_I_ALG0); vr_havoc_int(VR_I_RFCT); vr_havoc_int(VR_I_RFC_TSTALG);
 	vr_havoc_int(VR_I_RFC_SIGALG); vr_havoc_int(VR_I_CALPUBT); vr_havoc_int(VR_I_CALAGGRT); vr_havoc_int(VR_I_CART); vr_havoc_int(VR_I_PUBT);
 
-	memset(&g_vr_chainlist, 0, sizeof(g_vr_chainlist));
 	g_vr_chainlist.length = vr_chains_length; g_vr_chainlist.elementAt = vr_chains_elementAt;
-	memset(&g_vr_linklist, 0, sizeof(g_vr_linklist));
 	g_vr_linklist.length = vr_links_length; g_vr_linklist.elementAt = vr_links_elementAt;
 	g_vr_nchains = nondet_size(); g_vr_nlinks = nondet_size();
 	g_vr_first = VR_OPT(&g_vr_chain0); g_vr_link_first = VR_OPT(&g_vr_link0);
 
-	memset(&g_vr_link0, 0, sizeof(g_vr_link0));
 	g_vr_link0.ctx = VR_CTX; g_vr_link0.isLeft = nondet_int();
 	g_vr_link0.levelCorrection = VR_OPT(&g_vr_int[VR_I_LC0]);
-	g_vr_link0.imprint = VR_OPT(&g_vr_h[VR_H_LINK]);
+	g_vr_link0.imprint = VR_OPT(&g_vr_h[VR_H_LINK]); g_vr_link0.legacyId = NULL; g_vr_link0.metaData = NULL;
 
-	memset(&g_vr_chain0, 0, sizeof(g_vr_chain0));
 	g_vr_chain0.ctx = VR_CTX; g_vr_chain0.ref = 1;
 	g_vr_chain0.aggregationTime = VR_OPT(&g_vr_int[VR_I_AGGRT0]);
 	g_vr_chain0.inputHash = VR_OPT(&g_vr_h[VR_H_IN0]);
 	g_vr_chain0.aggrHashId = VR_OPT(&g_vr_int[VR_I_ALG0]);
 	g_vr_chain0.chain = VR_OPT(&g_vr_linklist);
 	g_vr_chain0.outputLevel = nondet_int(); g_vr_chain0.inputLevel = nondet_int();
+	g_vr_chain0.chainIndex = NULL; g_vr_chain0.inputData = NULL; g_vr_chain0.outputHash = NULL;
 
-	memset(&g_vr_rfc, 0, sizeof(g_vr_rfc));
 	g_vr_rfc.ctx = VR_CTX; g_vr_rfc.ref = 1;
 	g_vr_rfc.aggregationTime = VR_OPT(&g_vr_int[VR_I_RFCT]);
 	g_vr_rfc.inputHash = VR_OPT(&g_vr_h[VR_H_RFC]);
 	g_vr_rfc.tstInfoAlgo = VR_OPT(&g_vr_int[VR_I_RFC_TSTALG]);
 	g_vr_rfc.sigAttrAlgo = VR_OPT(&g_vr_int[VR_I_RFC_SIGALG]);
+	g_vr_rfc.chainIndex = NULL; g_vr_rfc.tstInfoPrefix = NULL; g_vr_rfc.tstInfoSuffix = NULL; g_vr_rfc.sigAttrPrefix = NULL; g_vr_rfc.sigAttrSuffix = NULL;
 
-	memset(&g_vr_cal, 0, sizeof(g_vr_cal));
 	g_vr_cal.ctx = VR_CTX; g_vr_cal.ref = 1;
 	g_vr_cal.publicationTime = VR_OPT(&g_vr_int[VR_I_CALPUBT]);
 	g_vr_cal.aggregationTime = VR_OPT(&g_vr_int[VR_I_CALAGGRT]);
-	g_vr_cal.inputHash = VR_OPT(&g_vr_h[VR_H_CALIN]);
+	g_vr_cal.inputHash = VR_OPT(&g_vr_h[VR_H_CALIN]); g_vr_cal.outputHash = NULL; g_vr_cal.hashChain = NULL;
 
-	memset(&g_vr_pd_car, 0, sizeof(g_vr_pd_car));
 	g_vr_pd_car.ctx = VR_CTX; g_vr_pd_car.ref = 1;
-	g_vr_pd_car.time = VR_OPT(&g_vr_int[VR_I_CART]); g_vr_pd_car.imprint = VR_OPT(&g_vr_h[VR_H_CAR]);
-	memset(&g_vr_pd_pub, 0, sizeof(g_vr_pd_pub));
+	g_vr_pd_car.time = VR_OPT(&g_vr_int[VR_I_CART]); g_vr_pd_car.imprint = VR_OPT(&g_vr_h[VR_H_CAR]); g_vr_pd_car.baseTlv = NULL;
 	g_vr_pd_pub.ctx = VR_CTX; g_vr_pd_pub.ref = 1;
-	g_vr_pd_pub.time = VR_OPT(&g_vr_int[VR_I_PUBT]); g_vr_pd_pub.imprint = VR_OPT(&g_vr_h[VR_H_PUB]);
-	memset(&g_vr_car, 0, sizeof(g_vr_car));
-	g_vr_car.ctx = VR_CTX; g_vr_car.ref = 1; g_vr_car.pubData = VR_OPT(&g_vr_pd_car);
-	memset(&g_vr_pubrec, 0, sizeof(g_vr_pubrec));
-	g_vr_pubrec.ctx = VR_CTX; g_vr_pubrec.ref = 1; g_vr_pubrec.publishedData = VR_OPT(&g_vr_pd_pub);
+	g_vr_pd_pub.time = VR_OPT(&g_vr_int[VR_I_PUBT]); g_vr_pd_pub.imprint = VR_OPT(&g_vr_h[VR_H_PUB]); g_vr_pd_pub.baseTlv = NULL;
+	g_vr_car.ctx = VR_CTX; g_vr_car.ref = 1; g_vr_car.pubData = VR_OPT(&g_vr_pd_car); g_vr_car.signatureData = NULL;
+	g_vr_pubrec.ctx = VR_CTX; g_vr_pubrec.ref = 1; g_vr_pubrec.publishedData = VR_OPT(&g_vr_pd_pub); g_vr_pubrec.publicationRef = NULL; g_vr_pubrec.repositoryUriList = NULL;
 
 	/* no memset: KSI_Signature embeds an 8 KB legacy result block the rules never touch (keeps counterexample traces small) */
 	g_vr_sig.ctx = VR_CTX; g_vr_sig.ref = 1; g_vr_sig.baseTlv = NULL; g_vr_sig.aggregationAuthRec = NULL; g_vr_sig.policyVerificationResult = NULL;
@@ -186,17 +180,16 @@ static void vr_world_init(void) {
 	g_vr_temp.calendarChain = NULL; g_vr_temp.publicationsFile = NULL;
 	g_vr_temp.aggregationOutputHash = VR_OPT(&g_vr_h[VR_H_AGGOUT]);
 
-	memset(&g_vr_info, 0, sizeof(g_vr_info));
 	g_vr_info.ctx = VR_OPT(VR_CTX);
 	g_vr_info.signature = VR_OPT(&g_vr_sig);
 	g_vr_info.extendingAllowed = nondet_int();
 	g_vr_info.docAggrLevel = nondet_ull();
 	g_vr_info.documentHash = VR_OPT(&g_vr_h[VR_H_DOC]);
-	g_vr_info.tempData = VR_OPT(&g_vr_temp);
+	g_vr_info.tempData = VR_OPT(&g_vr_temp); g_vr_info.userPublication = NULL; g_vr_info.userPublicationsFile = NULL;
 
 	/* policy.c Rule_verify presets the result slot like this before every rule (asserted at the call site by C05.rule_verify) */
-	memset(&g_vr_res, 0, sizeof(g_vr_res));
-	g_vr_res.resultCode = KSI_VER_RES_NA; g_vr_res.errorCode = KSI_VER_ERR_GEN_2;
+	g_vr_res.resultCode = KSI_VER_RES_NA; g_vr_res.errorCode = KSI_VER_ERR_GEN_2; g_vr_res.ruleName = NULL; g_vr_res.policyName = NULL;
+	g_vr_res.status = KSI_OK; g_vr_res.statusExt = 0; g_vr_res.statusMessage = NULL;
 	g_vr_res.stepsPerformed = nondet_size(); g_vr_res.stepsSuccessful = nondet_size(); g_vr_res.stepsFailed = nondet_size();
 }
 
